@@ -132,7 +132,9 @@ func c07Once(cs *core.Case, subWindows [][2]int) (ran bool, nontrivial bool, sym
 	return true, rng.Res.NPoints() > 0, "", "", evals
 }
 
-func usesStartEnd(q string) bool { return strings.Contains(q, "start()") || strings.Contains(q, "end()") }
+func usesStartEnd(q string) bool {
+	return strings.Contains(q, "start()") || strings.Contains(q, "end()")
+}
 
 func init() {
 	check.Replayers["enum:C07"] = func(f *check.Failure) (string, string) {
@@ -195,56 +197,78 @@ func init() {
 			ws = []wspec{mk(10000, 30000, 12), mk(0, 45000, 21), mk(1300000, 30000, 11)}
 		}
 		c.Rep.Bounds["windows"] = len(ws)
-		dss := []string{"D1", "D2", "D3"}
-		for _, q := range qs {
-			if usesStartEnd(q) {
-				continue
-			}
-			for _, d := range dss {
-				data := dataset(d)
-				for _, w := range ws {
-					c.Rep.Transitions++
-					if !c.Mine() {
-						continue
+		// parameters and arguments that vary per step, over the dataset of C06 (histogram
+		// buckets, a scalar source that is absent at some steps, vectors absent for a batch)
+		perStep := []string{`histogram_quantile(scalar(b{l="0"}) / 5, h_bucket)`, `histogram_quantile(time() / 4000, h_bucket)`, `histogram_quantile(scalar(b{l="0"}) / 5, gh_bucket)`,
+			`clamp_min(a, scalar(b{l="0"}))`, `clamp_max(a, time() / 100)`, `clamp(a, scalar(b{l="0"}) - 2, time() / 300)`, `topk(scalar(b{l="0"}), a)`, `bottomk by (l) (scalar(b{l="0"}) - 1, a)`,
+			`quantile(scalar(b{l="0"}) / 5, a)`, `a * scalar(b{l="0"})`, `scalar(b{l="0"}) + time()`, `clamp_min(g, time() / 100)`, `g + scalar(b{l="0"})`, `vector(scalar(g{l="0"}))`,
+			`scalar(sum by (l) (g{l="1"}))`, `histogram_quantile(0.9, sum by (le) (rate(h_bucket[1m])))`, `count_values("v", a)`, `sum(a) / scalar(b{l="0"})`, `a > bool scalar(b{l="0"})`}
+		type group struct {
+			name string
+			data []core.SeriesSpec
+			qs   []string
+			o    core.Opts
+		}
+		groups := []group{{"c06", c06Data(), perStep, core.Opts{Optimizers: "none", LookbackMs: 20000}}}
+		for _, d := range []string{"D1", "D2", "D3"} {
+			groups = append(groups, group{d, dataset(d), qs, core.Opts{Optimizers: "none"}})
+		}
+		c.Rep.Bounds["per_step_parameter_queries"] = len(perStep)
+		for _, g := range groups {
+			for _, q := range g.qs {
+				if usesStartEnd(q) {
+					continue
+				}
+				{
+					d, data := g.name, g.data
+					for _, w := range ws {
+						if g.name == "c06" {
+							// the data of C06 starts at 0 with 30 s spacing
+							w.w = core.Range(0, 30000, w.w.NSteps())
+						}
+						c.Rep.Transitions++
+						if !c.Mine() {
+							continue
+						}
+						if c.Expired() {
+							return
+						}
+						cs := &core.Case{Q: q, Data: data, W: w.w, O: g.o, Note: d}
+						if !c.Progress(cs) {
+							continue
+						}
+						ran, nt, sym, det, ev := c07Once(cs, w.sub)
+						if !ran {
+							c.Rep.Outcomes["unsupported"]++
+							continue
+						}
+						c.Rep.States++
+						c.Rep.Evaluations += ev
+						c.Rep.Traces += ev
+						if nt {
+							c.Rep.Nontrivial++
+						}
+						if c.Shard == 0 {
+							c.Sample(map[string]any{"q": q, "dataset": d, "window": w.w, "instant_queries": w.w.NSteps(), "sub_windows": len(w.sub)})
+						}
+						if sym == "" {
+							c.Rep.Outcomes["agree"]++
+							continue
+						}
+						if _, _, s2, _, _ := c07Once(cs, w.sub); s2 == "" {
+							c.Rep.Extra["unreproduced_failures"]++
+							continue
+						}
+						if hasK(q) && (strings.Contains(sym, "range-") || strings.HasPrefix(sym, "subwindow")) && kOperandHasTie(cs, storeFor(cs)) {
+							// which of several equal values topk keeps is not a function of the inputs
+							c.Rep.Extra["tie_rule_nested_accepted"]++
+							c.Rep.Outcomes["agree-modulo-tie"]++
+							continue
+						}
+						c.Rep.Outcomes["diff:"+sym]++
+						cp := *cs
+						c.Fail(check.Failure{Prop: "C07", Kind: "enum", Sub: "C07", Symptom: sym, Detail: det, Case: &cp})
 					}
-					if c.Expired() {
-						return
-					}
-					cs := &core.Case{Q: q, Data: data, W: w.w, O: core.Opts{Optimizers: "none"}, Note: d}
-					if !c.Progress(cs) {
-						continue
-					}
-					ran, nt, sym, det, ev := c07Once(cs, w.sub)
-					if !ran {
-						c.Rep.Outcomes["unsupported"]++
-						continue
-					}
-					c.Rep.States++
-					c.Rep.Evaluations += ev
-					c.Rep.Traces += ev
-					if nt {
-						c.Rep.Nontrivial++
-					}
-					if c.Shard == 0 {
-						c.Sample(map[string]any{"q": q, "dataset": d, "window": w.w, "instant_queries": w.w.NSteps(), "sub_windows": len(w.sub)})
-					}
-					if sym == "" {
-						c.Rep.Outcomes["agree"]++
-						continue
-					}
-					if _, _, s2, _, _ := c07Once(cs, w.sub); s2 == "" {
-						c.Rep.Extra["unreproduced_failures"]++
-						continue
-					}
-					if hasK(q) && (strings.Contains(sym, "range-") || strings.HasPrefix(sym, "subwindow")) && kOperandHasTie(cs, storeFor(cs)) {
-						// which of several equal values topk keeps is not a function of the inputs
-						c.Rep.Extra["tie_rule_nested_accepted"]++
-						c.Rep.Outcomes["agree-modulo-tie"]++
-						continue
-					}
-					c.Rep.Outcomes["diff:"+sym]++
-					cp := *cs
-					c.Fail(check.Failure{Prop: "C07", Kind: "enum", Sub: "C07", Symptom: sym, Detail: det, Case: &cp})
 				}
 			}
 		}
